@@ -283,7 +283,7 @@ def monitor(case, obs):
     if de is not None:
         for r, cr in zip(runs, case["runs"]):
             ld = [x[0] for x in r["loaders"]]
-            if len(ld) == 2 and all(x in ("json", "json5", "yaml") for x in ld) and not r["exc"] and "Error" not in r["err"]:
+            if len(ld) >= 1 and all(x in ("json", "json5", "yaml") for x in ld) and not r["exc"] and "Error" not in r["err"]:
                 if de and r["rc"] != 0:
                     hits.append({"prop": "C02", "key": "equal-but-exit-nonzero", "what": f"{cr['argv']}: documents are equal as data but the command exits with {r['rc']}"})
                 if not de and r["rc"] != 1:
